@@ -143,6 +143,10 @@ def gen_ops(rng: random.Random, hps: dict[str, Any],
     it = 0
     have_ckpt: Any = None  # (steps, consts, include_factors)
     trained = 0
+    # a state saved before the first factor update holds A=G=None and is not
+    # loadable with compute_inverses=True ("update_a_factor() must be called
+    # at least once"); such saves are outside the generated domain
+    factors_exist = False
     while len(ops) < n:
         r = rng.random()
         if r < extras * 0.25:
@@ -159,7 +163,7 @@ def gen_ops(rng: random.Random, hps: dict[str, Any],
                 return None
             ops.append({'op': 'sched', 'step': step})
         elif r < extras * 0.7 + restarts * 0.5 and trained:
-            inc_f = rng.random() < 0.85
+            inc_f = rng.random() < 0.85 and factors_exist
             ranks = rng.choice([[0], None, [0]])
             if ranks is None and rng.random() < 0.3 and world > 1:
                 ranks = sorted({0} | set(
@@ -191,6 +195,7 @@ def gen_ops(rng: random.Random, hps: dict[str, Any],
                     return None
             elif not ci and not refresh_next:
                 ci = True
+            factors_exist = inc_f
             rop = {'op': 'restart', 'compute_inverses': ci}
             if rng.random() < 0.3:
                 rop['try_bad'] = rng.choice(['drop', 'extra'])
@@ -204,6 +209,7 @@ def gen_ops(rng: random.Random, hps: dict[str, Any],
             ops.append(op)
             it += 1
             trained += 1
+            factors_exist = True
             if not m.legal():
                 return None
             m.ref.steps += 1
